@@ -271,6 +271,19 @@ impl NetSpec {
                 return false;
             }
         }
+        self.well_formed_unordered()
+    }
+    /// Variables sorted by name? (every lib-param-bn parser sorts; a programmatically built network need not be)
+    pub fn sorted_names(&self) -> bool {
+        self.vars.windows(2).all(|w| w[0] < w[1])
+    }
+    /// `well_formed` without the requirement that the variable names are sorted (networks built with
+    /// `RegulatoryGraph::new` keep the declaration order).
+    pub fn well_formed_unordered(&self) -> bool {
+        let mut names = std::collections::BTreeSet::new();
+        if !self.vars.iter().all(|v| names.insert(v.clone())) {
+            return false;
+        }
         for (i, f) in self.funcs.iter().enumerate() {
             if let Some(f) = f {
                 let mut sup = vec![];
@@ -579,6 +592,11 @@ pub fn parse_expr(s: &str, vars: &[String]) -> Expr {
 /// Build a spec from aeon-like lines (regulations and `$x: expr` lines). Variables = all names
 /// that occur as source/target of a regulation or as target of a function line, sorted.
 pub fn spec(lines: &str) -> NetSpec {
+    spec_ordered(lines, None)
+}
+
+/// `order`: the declaration order of the variables (None = sorted by name, as the aeon parser does).
+pub fn spec_ordered(lines: &str, order: Option<&[&str]>) -> NetSpec {
     let mut names = std::collections::BTreeSet::new();
     let mut regs_raw = vec![];
     let mut funs_raw = vec![];
@@ -599,7 +617,13 @@ pub fn spec(lines: &str) -> NetSpec {
             regs_raw.push((parts[0].to_string(), parts[1].to_string(), parts[2].to_string()));
         }
     }
-    let vars: Vec<String> = names.into_iter().collect();
+    let vars: Vec<String> = match order {
+        None => names.into_iter().collect(),
+        Some(o) => {
+            assert_eq!(o.iter().map(|s| s.to_string()).collect::<std::collections::BTreeSet<_>>(), names, "order must list exactly the variables");
+            o.iter().map(|s| s.to_string()).collect()
+        }
+    };
     let idx = |n: &str| vars.iter().position(|v| v == n).unwrap();
     let regs = regs_raw
         .iter()
@@ -621,7 +645,7 @@ pub fn spec(lines: &str) -> NetSpec {
         funcs[idx(&v)] = Some(parse_expr(&e, &vars));
     }
     let s = NetSpec { vars, regs, funcs };
-    assert!(s.well_formed(), "spec not well formed: {lines:?}");
+    assert!(if order.is_some() { s.well_formed_unordered() } else { s.well_formed() }, "spec not well formed: {lines:?}");
     s
 }
 
